@@ -24,11 +24,16 @@ type DevPlan struct {
 	Files    []*tgen.File `json:"files"`
 	Jobs     []tbatch.Job `json:"jobs"`
 	Parallel int          `json:"parallel"`
+	// MinMs > 0: the goroutines keep re-rendering their jobs for that long; TouchMs > 0: meanwhile
+	// every development text file is replaced (same content, new modification time) at that
+	// period, so renders overlap the cache's reload path.
+	MinMs   int `json:"min_ms,omitempty"`
+	TouchMs int `json:"touch_ms,omitempty"`
 }
 
 var recDev = ev.New("C14", "c14.devmode-concurrent",
-	"batches of tgen programs are generated the way `templ generate --watch` does (development text files), compiled with -race, and every (program, arguments, writer fault) job is rendered once sequentially in normal mode (the reference) and then by 2..16 goroutines at the same time in development mode, where all of them read templ's shared text-file cache. "+
-		"Oracle: the race-instrumented process reports no data race and exits normally; every concurrent development-mode render equals its sequential reference (output bytes and error status). Non-trivial = >=4 goroutines and a job list in which the same program is rendered by different goroutines; distinct by plan")
+	"batches of tgen programs are generated the way `templ generate --watch` does (development text files), compiled with -race, and every (program, arguments, writer fault) job is rendered once sequentially in normal mode (the reference) and then by 2..16 goroutines at the same time in development mode, where all of them read templ's shared text-file cache; in two thirds of the plans the goroutines keep re-rendering for 350-700 ms while every development text file is replaced (same content, new modification time, temporary file + rename) every 20-90 ms, so that renders overlap the cache's reload path the way they do after an edit under `templ generate --watch`. "+
+		"Oracle: the race-instrumented process reports no data race and exits normally; every concurrent development-mode render - each repetition of it - equals its sequential reference (output bytes and error status). Non-trivial = >=4 goroutines and a job list in which the same program is rendered by different goroutines; distinct by plan")
 
 func decideDev(p DevPlan) error {
 	proj, err := watchbuild.New(len(p.Files))
@@ -54,7 +59,8 @@ func decideDev(p DevPlan) error {
 	if err != nil {
 		panic("harness: sequential reference run failed: " + err.Error())
 	}
-	env := append(proj.DevEnv(), fmt.Sprintf("VERIF_PARALLEL=%d", p.Parallel), "GORACE=halt_on_error=1 atexit_sleep_ms=0")
+	env := append(proj.DevEnv(), fmt.Sprintf("VERIF_PARALLEL=%d", p.Parallel), "GORACE=halt_on_error=1 atexit_sleep_ms=0",
+		fmt.Sprintf("VERIF_MIN_MS=%d", p.MinMs), fmt.Sprintf("VERIF_TOUCH_MS=%d", p.TouchMs))
 	got, err := bin.Run(p.Jobs, env, 180*time.Second)
 	if err != nil {
 		if strings.Contains(err.Error(), "DATA RACE") {
@@ -119,10 +125,15 @@ func TestPropDevModeConcurrent(t *testing.T) {
 			}
 			p.Jobs = append(p.Jobs, j)
 		}
+		if rapid.IntRange(0, 2).Draw(t, "touch") > 0 {
+			p.MinMs = rapid.IntRange(350, 700).Draw(t, "minMs")
+			p.TouchMs = rapid.IntRange(20, 90).Draw(t, "touchMs")
+			recDev.Class("text files replaced during the run")
+		}
 		recDev.Eval(len(p.Jobs))
 		if p.Parallel >= 4 {
-			recDev.NonTrivial(fmt.Sprint(p.Parallel, p.Jobs), func() any {
-				return map[string]any{"parallel": p.Parallel, "jobs": len(p.Jobs), "programs": len(p.Files)}
+			recDev.NonTrivial(fmt.Sprint(p.Parallel, p.MinMs, p.TouchMs, p.Jobs), func() any {
+				return map[string]any{"parallel": p.Parallel, "jobs": len(p.Jobs), "programs": len(p.Files), "min_ms": p.MinMs, "touch_ms": p.TouchMs}
 			})
 		}
 		if err := decideDev(p); err != nil {
